@@ -164,3 +164,8 @@ class StreamCounter:
         P.check(self.max_open <= self.N, "open-streams<=max_connections(apart from evicted ones being closed)",
                 f"{self.sig}:streams>{self.N}", prop="C04")
         P.check(len(self.su.pool.connections) <= self.N, "pooled-connections<=max_connections", f"{self.sig}:pooled>{self.N}", prop="C04")
+        # the frame condition of the inductive argument: the connection list changes only inside the pool's own
+        # functions and (sync pool) only while the pool lock is held
+        d = self.su.pool._discipline
+        P.check(not d.violations, "pool-lists-mutated-only-by-the-pool-with-its-lock-held",
+                lambda: f"{self.sig}:frame:{d.violations[0]}", prop="C04")
